@@ -37,7 +37,7 @@ RT_FUNCS = {
     '__cxa_guard_abort': 'vf_guard_release',
     '__cxa_atexit': 'vf_cxa_atexit', '__cxa_thread_atexit': 'vf_cxa_thread_atexit',
     'strlen': 'vf_strlen', 'strcmp': 'vf_strcmp', 'memcmp': 'vf_memcmp', 'strchr': 'vf_strchr',
-    'memchr': 'vf_memchr', 'strtol': 'vf_strtol', '__sched_cpucount': 'vf_sched_cpucount',
+    'memchr': 'vf_memchr', 'strtol': 'vf_strtol', 'strtoul': 'vf_strtoul', '__sched_cpucount': 'vf_sched_cpucount',
     '_ZNSt7__cxx1112basic_stringIcSt11char_traitsIcESaIcEE9_M_createERmm': 'vf_string_M_create',
     '__errno_location': 'vf_errno_location',
     'clock_gettime': 'vf_clock_gettime',
@@ -58,12 +58,19 @@ RT_FUNCS = {
     '_ZNSt15__exception_ptr13exception_ptrD1Ev': 'vf_eptr_dtor',
     '_ZNSt15__exception_ptr13exception_ptr4swapERS0_': 'vf_eptr_swap',
     '_ZSt18uncaught_exceptionv': 'vf_uncaught_exception',
+    # std::thread (libstdc++): creation records the thread, the harness runs the body as a model thread
+    '_ZNSt6thread15_M_start_threadESt10unique_ptrINS_6_StateESt14default_deleteIS1_EEPFvvE': 'vf_std_thread_start',
+    '_ZNSt6thread4joinEv': 'vf_std_thread_join', '_ZNSt6thread6detachEv': 'vf_std_thread_detach',
+    '_ZNSt6thread20hardware_concurrencyEv': 'vf_hw_concurrency',
+    '_ZNSt6thread6_StateD2Ev': 'vf_std_thread_state_dtor',
+    'getenv': 'vf_getenv', 'secure_getenv': 'vf_getenv',
 }
 # primitives after which the calling thread may have been declared dead (stuck forever)
 BLOCKING = {'syscall', 'vf_block_until', 'vf_join', 'vf_futex_wait', 'pthread_mutex_lock',
             'vf_thread_exit'}
 # seq mode: external calls after which a thread root may have to give up the processor
-SEQ_BLOCKING = {'pthread_mutex_lock', '__cxa_guard_acquire', 'vf_block_until', 'vf_join'}
+SEQ_BLOCKING = {'pthread_mutex_lock', '__cxa_guard_acquire', 'vf_block_until', 'vf_join',
+                '_ZNSt6thread4joinEv', 'vf_wait_started'}
 SEQ_YIELDING = {'sched_yield', 'pthread_yield'}
 NORETURN_RT = {'vf_abort', 'vf_abort1', 'vf_abort1i', 'vf_abort_va', 'vf_assert_fail', 'vf_exit',
                'vf_call_terminate'}
@@ -564,6 +571,15 @@ class Emitter:
         self.cur = f
         self.cur_phis = phis
         self.tmpn = 0
+        # typed allocation: the type an allocation result is first cast to (CBMC is an order of
+        # magnitude faster on typed dynamic objects than on byte arrays accessed through casts)
+        self.first_cast = {}
+        if self.opts.get('typed_alloc', True):
+            for b in f.blocks:
+                for ins in b.instrs:
+                    if ins.op == 'cast' and ins.cop == 'bitcast' and isinstance(ins.a, Local) and \
+                            ins.ty.kind == 'ptr' and ins.a.name not in self.first_cast:
+                        self.first_cast[ins.a.name] = ins.ty.to
         if root_k is None:
             w(self.proto(f) + ' {')
             for d in decls:
@@ -945,6 +961,24 @@ class Emitter:
             f = self.mod.funcs.get(name)
             if f is None:
                 raise Unsupported('call to unknown @' + name)
+            icpt = self.opts.get('intercept') or {}
+            if name in icpt:
+                # a defined function replaced by a runtime contract model (listed in the evidence)
+                self.externals.add(name)
+                args = [self.rt_arg(a, self.val(a)) for a in ins.args]
+                rtn = icpt[name]
+                if r and rtn == 'vf_aligned_malloc':
+                    T = self.alloc_elem_type(ins)
+                    if T is not None and 'VF_ADDR_AWARE' not in self.opts.get('rt_defs', {}):
+                        w('  %s = (%s)VF_MALLOC_T(%s, %s);' % (r, self.cty(ins.ty), T, args[0]))
+                        finish(False)
+                        return
+                call = '%s(%s)' % (rtn, ', '.join(args))
+                if r:
+                    call = '(%s)%s' % (self.cty(ins.ty), call) if ins.ty.kind in ('ptr', 'int') else call
+                w('  %s%s;' % ((r + ' = ') if r else '', call))
+                finish(False)
+                return
             self.note_func_use(name)
             if f.is_decl and name not in RT_FUNCS and not name.startswith('vf_'):
                 self.unknown_externals.add(name)
@@ -957,6 +991,14 @@ class Emitter:
             call = '%s(%s)' % (self.fname(name), ', '.join(args))
             if r and f.is_decl and name in RT_FUNCS:
                 call = '(%s)%s' % (self.cty(ins.ty), call) if ins.ty.kind in ('ptr', 'int') else call
+            if r and self.fname(name) in ('vf_malloc', 'vf_malloc_nt', 'vf_aligned_malloc') and \
+                    'VF_ADDR_AWARE' not in self.opts.get('rt_defs', {}):
+                T = self.alloc_elem_type(ins)
+                if T is not None:
+                    size = args[0]
+                    w('  %s = (%s)VF_MALLOC_T(%s, %s);' % (r, self.cty(ins.ty), T, size))
+                    finish(False)
+                    return
             if self.seq and f.is_decl and name in SEQ_YIELDING:
                 if self.cur_root is not None:
                     self.seq_yield(w, forced=True)
@@ -981,6 +1023,25 @@ class Emitter:
         w('  %s((%s)%s)(%s);' % ((r + ' = ') if r else '', self.fptr_name(fty), self.val(callee), args))
         finish(self.any_abort)
 
+    def alloc_elem_type(self, ins):
+        """C type of the elements an allocation is used as (from the first bitcast of its result)"""
+        to = self.first_cast.get(ins.res)
+        if to is None:
+            return None
+        r = resolve(self.mod, to)
+        if r.kind == 'int' and r.bits == 8:
+            return None
+        if r.kind in ('func', 'void', 'label', 'metadata'):
+            return None
+        if r.kind == 'named' or (to.kind == 'named' and self.mod.types.get(to.name) is None):
+            return None
+        try:
+            if self.sizeof(to) == 0:
+                return None
+            return self.cty(to)
+        except Exception:
+            return None
+
     def rt_arg(self, a, e):
         if a.ty.kind == 'ptr':
             return '(void*)' + e
@@ -1000,6 +1061,13 @@ class Emitter:
             return True
         if name == 'vf_atomic_end':
             w('  vf_in_ghost--;' if self.seq else '  __CPROVER_atomic_end();')
+            return True
+        if name == 'vf_sched_point':
+            # harness-level scheduling point (e.g. inside a ghost critical section)
+            if self.seq:
+                if self.cur_root is not None:
+                    self.seq_yield(w)
+                w('  vf_vis_t = vf_tid;')
             return True
         if name == 'vf_join_all' and self.seq:
             y = self.seq_yield(w) if self.cur_root is not None else None
@@ -1313,7 +1381,7 @@ class Emitter:
                          gdecl + protos + gl + [''] + body + ctor_fn) + '\n'
 
 
-HEADER_VF = {'vf_nondet_u8', 'vf_nondet_u16', 'vf_nondet_u32', 'vf_nondet_u64', 'vf_nondet_bool',
+HEADER_VF = {'vf_sched_point', 'vf_nondet_u8', 'vf_nondet_u16', 'vf_nondet_u32', 'vf_nondet_u64', 'vf_nondet_bool',
              'vf_atomic_begin', 'vf_atomic_end', 'vf_self', 'vf_join_all', 'vf_any_stuck', 'vf_is_dead',
              'vf_note', 'vf_throw', 'vf_check', 'vf_assume', 'vf_reach', 'vf_spawn', 'vf_main'}
 ORD = {'unordered': 'VF_RLX', 'monotonic': 'VF_RLX', 'acquire': 'VF_ACQ', 'release': 'VF_REL',
